@@ -360,6 +360,31 @@ async def _(c):
         c.mark('step%d:e' % n)         # the end of the iteration (closed and drained) is a step, too
 
 
+@op('channel_iteration_far_behind')
+async def _(c):
+    # a consumer that has fallen a hundred messages behind: every step of catching up is a step like any other
+    ch = Channel()
+
+    async def produce():
+        await ch.put(0)
+        await (time + 0.5)
+        for i in range(1, 101):
+            await ch.put(i)
+        await ch.close()
+    async with Scope() as s:
+        s.do(produce())
+        n = 0
+        async for _ in ch:
+            if n in (1, 2, 70, 71, 100):
+                c.mark('step%d:e' % n)
+            n += 1
+            if n == 1:
+                await (time + 1)
+            if n in (1, 2, 70, 71, 100):
+                c.respin(s)
+                c.mark('step%d:s' % n)
+
+
 @op('queue_iteration_with_buffered_messages')
 async def _(c):
     q = Queue()
